@@ -445,6 +445,9 @@ class Poly(meta(metaclass=PolyMeta)):
                                  else v ** other) # Avoid casting
                               for k, v in iteritems(self._data)),
                   zero=self.zero)
+    if other < 0: # No sum of powers is the inverse of a sum with 2+ terms
+      raise NotImplementedError("Can't find negative powers of general Poly "
+                                "instances")
     return reduce(operator.mul, [self.copy() for unused in xrange(other - 1)]
                                 + [self]) # One "T" copy for each factor
 
